@@ -276,7 +276,7 @@ func runC34(c *Ctx) {
 			}))
 			need = append(need, "stored:"+f)
 		}
-		fl.MaxDepth = 0
+		fl.MaxDepth = 1 // the body may sit in a "...Locked" helper called on the same entry
 		res := fl.Analyze(fn, emptyState())
 		// close(ch), `ch <- x`, and a send arm of a select (the non-blocking wake in setReadError)
 		wake := Or(BuiltinCall("close", "recv.mu.ch"), Pred("send on e.mu.ch", func(in ssa.Instruction) bool {
